@@ -13,6 +13,11 @@ import Ebv.Generated.Consts
     a schedule is a list of such pairs; a process is single threaded, so between two file operations that
     the code performs without an `await` only the same task can continue.
 
+(d) Blocks that FAIL or are CANCELLED (`Sec`): `asyncio.Lock.__aexit__` and `ParallelMailboxLock.__aexit__` do the
+    same whatever exception leaves the block, so an error between two exchanges is a block with fewer exchanges; an
+    exception while a request is out (abort answer that raises, unprocessed datagram, timeout, `Task.cancel()` at any
+    await once the header is queued) is the step `abort`: the request stays unanswered, the counter it used stays used.
+
 The modulus and the start value are regenerated from /repo (`Consts.mbxMod`, `Consts.mbxStart`). -/
 namespace Ebv.Mbx
 open Ebv.Consts
@@ -31,19 +36,41 @@ def counters : Nat → Nat → List Nat
 
 inductive Step where
   | acq | send | recv | rel
+  | abort    -- the block is left by an exception while a request is out: abort answer / error / timeout / cancellation
 deriving Repr, DecidableEq
+
+/-- one `async with lock:` block: `n` complete exchanges; with `cut`, one more request is sent and the block is then
+left by an exception — the terminal's answer is an abort that raises before the response is taken, a datagram is not
+processed, the waiting task times out or is cancelled — so that this request stays unanswered.  A block that fails
+*between* two exchanges (before its next request was written, or after a response was read) is a block with fewer
+exchanges: neither lock class looks at the exception when the block is left. -/
+structure Sec where
+  n : Nat
+  cut : Bool
+deriving Repr, DecidableEq
+
+instance (n : Nat) : OfNat Sec n := ⟨{ n := n, cut := false }⟩
+
+/-- the messages a block puts on the bus -/
+def Sec.messages (x : Sec) : Nat := x.n + (if x.cut then 1 else 0)
+
+/-- the messages the blocks of a task put on the bus, the abandoned requests included -/
+def secMessages (xs : List Sec) : Nat := (xs.map Sec.messages).sum
 
 /-- `async with lock:` around `n` exchanges -/
 def exchanges : Nat → List Step
   | 0 => []
   | n + 1 => .send :: .recv :: exchanges n
 
-def critical (n : Nat) : List Step := .acq :: (exchanges n ++ [.rel])
+/-- how a block ends: normally, or by the exception that abandons the request that is out -/
+def ending (cut : Bool) (last : List Step) : List Step := if cut then .send :: .abort :: last else last
 
-/-- a task performing one critical section per entry, with that many exchanges -/
-def prog : List Nat → List Step
+def critical (x : Sec) : List Step := .acq :: (exchanges x.n ++ ending x.cut [.rel])
+
+/-- a task performing one critical section per entry -/
+def prog : List Sec → List Step
   | [] => []
-  | n :: ns => critical n ++ prog ns
+  | x :: xs => critical x ++ prog xs
 
 inductive Ev where
   | acq (t : Nat)                 -- `__aenter__` returned in task t
@@ -51,6 +78,7 @@ inductive Ev where
   | recv (t : Nat)
   | rel (t : Nat)                 -- `__aexit__`
   | err (t : Nat)                 -- `assert self.locked()` failed
+  | abort (t : Nat)               -- the exception that ends the block leaves the request of `t` unanswered
 deriving Repr, DecidableEq
 
 structure St where
@@ -63,7 +91,7 @@ structure St where
 def setProg (f : Nat → List Step) (t : Nat) (p : List Step) : Nat → List Step :=
   fun u => if u = t then p else f u
 
-def init (tasks : List (List Nat)) : St :=
+def init (tasks : List (List Sec)) : St :=
   { locked := false, woken := false, waiters := [], counter := mbxStart,
     progs := fun t => prog (tasks.getD t []) }
 
@@ -87,6 +115,7 @@ def step (s : St) (t : Nat) : St × List Ev :=
   | .recv :: r => ({ s with progs := setProg s.progs t r }, [.recv t])
   | .rel :: r =>
     ({ s with locked := false, woken := !s.waiters.isEmpty, progs := setProg s.progs t r }, [.rel t])
+  | .abort :: r => ({ s with progs := setProg s.progs t r }, [.abort t])
 
 def run (s : St) : List Nat → List Ev
   | [] => []
@@ -118,6 +147,7 @@ def chk1 (k : Chk) : Ev → Option Chk
   | .recv t => if k.holder == some t && k.pend then some { k with pend := false } else none
   | .rel t => if k.holder == some t && !k.pend then some { k with holder := none } else none
   | .err _ => none
+  | .abort t => if k.holder == some t && k.pend then some { k with pend := false } else none
 
 def check (k : Chk) : List Ev → Bool
   | [] => true
@@ -132,6 +162,12 @@ def sent : List Ev → List Nat
   | [] => []
   | .send _ c :: es => c :: sent es
   | _ :: es => sent es
+
+/-- the counter of the latest message on the bus (`l` if none left) -/
+def lastFrom (l : Option Nat) : List Ev → Option Nat
+  | [] => l
+  | .send _ c :: es => lastFrom (some c) es
+  | _ :: es => lastFrom l es
 
 /-! #### operations that are retried after a failed attempt
 
@@ -148,9 +184,9 @@ structure Op where
 deriving Repr, DecidableEq
 
 /-- the critical sections an operation amounts to -/
-def Op.sections (o : Op) : List Nat := o.fails ++ [o.n]
+def Op.sections (o : Op) : List Sec := (o.fails ++ [o.n]).map fun n => { n := n, cut := false }
 
-def opSections (ops : List Op) : List Nat := ops.flatMap Op.sections
+def opSections (ops : List Op) : List Sec := ops.flatMap Op.sections
 
 /-- the messages that really left for an operation -/
 def Op.messages (o : Op) : Nat := o.fails.sum + o.n
@@ -175,18 +211,21 @@ inductive PStep where
   | recv
   | pwrite    -- `os.pwrite(fd, bytes((self.counter,)), no)`
   | unlock    -- `lockf(fd, LOCK_UN, 1, no)`; `self.counter = None`; `task_lock.release()`
+  | abort     -- the block is left by an exception while a request is out; `__aexit__` (pwrite, unlock) follows
 deriving Repr, DecidableEq
 
 def exchangesX : Nat → List PStep
   | 0 => []
   | n + 1 => .send :: .recv :: exchangesX n
 
-/-- `async with ParallelMailboxLock:` around `n` exchanges -/
-def criticalX (n : Nat) : List PStep := .enter :: .pread :: (exchangesX n ++ [.pwrite, .unlock])
+def endingX (cut : Bool) (last : List PStep) : List PStep := if cut then .send :: .abort :: last else last
 
-def progX : List Nat → List PStep
+/-- `async with ParallelMailboxLock:` around the exchanges of `x`; `__aexit__` is the same however the block is left -/
+def criticalX (x : Sec) : List PStep := .enter :: .pread :: (exchangesX x.n ++ endingX x.cut [.pwrite, .unlock])
+
+def progX : List Sec → List PStep
   | [] => []
-  | n :: ns => criticalX n ++ progX ns
+  | x :: xs => criticalX x ++ progX xs
 
 /-- where a process is in `LockFile.__init__` -/
 inductive InitSt where
@@ -230,6 +269,7 @@ inductive XEv where
   | pwrite (p t c : Nat)
   | pwriteNone (p t : Nat)       -- `bytes((None,))`: TypeError out of `__aexit__`
   | unlock (p t : Nat)
+  | abort (p t : Nat)            -- the exception that ends the block leaves the request of (p, t) unanswered
 deriving Repr, DecidableEq
 
 /-- `os.ftruncate(fd, n)` on a file that is not longer than `n`: zeros are appended, nothing is overwritten -/
@@ -246,7 +286,7 @@ def setProc (f : Nat → Proc) (p : Nat) (P : Proc) : Nat → Proc := fun q => i
 
 def contProg (P : Proc) (t : Nat) (r : List PStep) : Nat → List PStep := fun u => if u = t then r else P.progs u
 
-def initX (size off : Nat) (file : Option (List Nat)) (tasks : List (List (List Nat))) : XSt :=
+def initX (size off : Nat) (file : Option (List Nat)) (tasks : List (List (List Sec))) : XSt :=
   { size := size, off := off,
     file := match file with
       | none => { present := false, data := [], owner := none }
@@ -303,6 +343,7 @@ def stepX (s : XSt) (pt : Nat × Nat) : XSt × List XEv :=
       | some c => ({ s with procs := setProc s.procs p { P with ctr := some (nextCounter c), progs := contProg P t r } },
                    [.send p t c])
     | .recv :: r => ({ s with procs := setProc s.procs p { P with progs := contProg P t r } }, [.recv p t])
+    | .abort :: r => ({ s with procs := setProc s.procs p { P with progs := contProg P t r } }, [.abort p t])
     | .pwrite :: r =>
       match P.ctr with
       | none => ({ s with procs := setProc s.procs p (dies P t) }, [.pwriteNone p t])
@@ -345,6 +386,7 @@ def xchk1 (k : XChk) : XEv → Option XChk
   | .pwrite p t _ => if k.holder == some (p, t) && !k.pend then some k else none
   | .pwriteNone _ _ => none
   | .unlock p t => if k.holder == some (p, t) then some { k with holder := none } else none
+  | .abort p t => if k.holder == some (p, t) && k.pend then some { k with pend := false } else none
 
 def checkX (k : XChk) : List XEv → Bool
   | [] => true
@@ -353,6 +395,12 @@ def checkX (k : XChk) : List XEv → Bool
     | none => false
 
 def xchk0 : XChk := { holder := none, last := none, pend := false }
+
+/-- the counter of the latest message on the bus (`l` if none left) -/
+def lastFromX (l : Option Nat) : List XEv → Option Nat
+  | [] => l
+  | .send _ _ c :: es => lastFromX (some c) es
+  | _ :: es => lastFromX l es
 
 /-- the byte of the terminal (0 if the file is shorter) is a counter -/
 def fileOk (off : Nat) (data : List Nat) : Bool := decide (cur data off ≤ mbxMod)
